@@ -8,33 +8,54 @@ import Gama.Model.Input
 namespace Gama.Input
 open Gama Gama.Lin Real
 
-/-- `deg2gon` of a non-negative reading is degrees·(400/360) with degrees = d + m/60 + s/3600 -/
-theorem deg2gonValue_pos (d m : Nat) (s : ℝ) :
-    (deg2gonValue false d m s : ℝ) = ((d : ℝ) + (m : ℝ) / 60 + s / 3600) * (400 / 360) := by
-  unfold deg2gonValue
-  simp only [ofNat_real, Bool.false_eq_true, Bool.and_false, if_false]
-  push_cast
-  ring
+theorem ofInt_real (i : ℤ) : (Scalar.ofInt i : ℝ) = (i : ℝ) := by
+  unfold Scalar.ofInt
+  split_ifs with h
+  · rw [ofNat_real, Nat.cast_natAbs, abs_of_neg h]; push_cast; ring
+  · rw [ofNat_real, Nat.cast_natAbs, abs_of_nonneg (not_lt.mp h)]
 
-theorem ite_beq_neg (g : ℝ) :
-    (if (!(Scalar.beq g (Scalar.ofNat 0 : ℝ)) && true) = true then -g else g) =
-      -(if (!(Scalar.beq g (Scalar.ofNat 0 : ℝ)) && false) = true then -g else g) := by
-  by_cases h0 : g = (Scalar.ofNat 0 : ℝ)
-  · have hb : Scalar.beq g (Scalar.ofNat 0 : ℝ) = true := (beq_real _ _).2 h0
-    have hz : g = 0 := by simpa using h0
-    simp [hb, hz]
-  · have hb : Scalar.beq g (Scalar.ofNat 0 : ℝ) = false := by
-      cases hb : Scalar.beq g (Scalar.ofNat 0 : ℝ)
+/-- sign of a sexagesimal reading -/
+def dmsSign (negative : Bool) : ℝ := if negative then -1 else 1
+
+/-- the seconds `mantissa · 10^exp` of the shared model, over ℝ -/
+theorem sciToK_real (p : Nat × Int) : (Angles.sciToK p : ℝ) = (p.1 : ℝ) * (10 : ℝ) ^ p.2 := by
+  unfold Angles.sciToK
+  split_ifs with h
+  · rw [ofSci_real]; simp only [if_true]
+    have : p.2 = -((p.2.natAbs : ℕ) : ℤ) := by omega
+    conv_rhs => rw [this, zpow_neg, zpow_natCast]
+    rw [div_eq_mul_inv]
+  · rw [ofSci_real]; simp only [Bool.false_eq_true, if_false]
+    have : p.2 = ((p.2.natAbs : ℕ) : ℤ) := by omega
+    conv_rhs => rw [this, zpow_natCast]
+
+/-- **the shared model of `deg2gon` over ℝ**: every string it accepts (sign, degrees, minutes and
+    seconds as parsed by `Angles.parseDms`) denotes `±(d + m/60 + s/3600)·10/9` gon -/
+theorem deg2gon_real (str : String) (neg : Bool) (d m : ℤ) (s : Nat × Int)
+    (hp : Angles.parseDms str = some (neg, d, m, s)) :
+    (Angles.deg2gon str : Option ℝ) =
+      some (dmsSign neg * (((d : ℝ) + (m : ℝ) / 60 + Angles.sciToK s / 3600) * (10 / 9))) := by
+  unfold Angles.deg2gon
+  rw [hp]
+  simp only [Option.map_some, ofInt_real, ofNat_real, Option.some.injEq]
+  set G : ℝ := ((d : ℝ) / (360 : ℕ) + (m : ℝ) / (21600 : ℕ) + Angles.sciToK s / (1296000 : ℕ)) * (400 : ℕ) with hG
+  have hGe : G = ((d : ℝ) + (m : ℝ) / 60 + Angles.sciToK s / 3600) * (10 / 9) := by
+    rw [hG]; push_cast; ring
+  by_cases h0 : G = 0
+  · have hb : Scalar.beq G 0 = true := (beq_real _ _).2 h0
+    rw [← hGe, h0]; simp [hb]
+  · have hb : Scalar.beq G 0 = false := by
+      cases hb : Scalar.beq G 0
       · rfl
       · exact absurd ((beq_real _ _).1 hb) h0
-    have hz : g ≠ 0 := by simpa using h0
-    simp [hz]
+    rw [← hGe]
+    cases neg <;> simp [hb, dmsSign]
 
-/-- a leading `-` negates the value (a zero value stays `0`, not `-0`) -/
-theorem deg2gonValue_neg (d m : Nat) (s : ℝ) :
-    (deg2gonValue true d m s : ℝ) = -(deg2gonValue false d m s : ℝ) := by
-  unfold deg2gonValue
-  exact ite_beq_neg _
+/-- what the parser stores for an accepted sexagesimal attribute: the shared model's value,
+    flagged as degrees -/
+theorem angularValue_deg (str : String) (g : ℝ) (h : (Angles.deg2gon str : Option ℝ) = some g) :
+    (angularValue str : Option (ℝ × Bool)) = some (g, true) := by
+  unfold angularValue; rw [h]
 
 /-- `1.0/0.324` is exactly the number of cc in one second of arc: 400·10⁴ / (360·3600) -/
 theorem secScale_real : (secScale : ℝ) = (400 * 10 ^ 4) / (360 * 3600) := by
@@ -56,11 +77,6 @@ theorem toRadians_real (g : ℝ) : toRadians g = g * π / 200 := by
   unfold toRadians
   simp only [pi_real, ofSci_real, if_true]
   norm_num
-
-/-- degrees and gons describing the same angle give the same stored value -/
-theorem toRadians_deg (d m : Nat) (s g : ℝ) (hg : g = ((d : ℝ) + (m : ℝ) / 60 + s / 3600) * (10 / 9)) :
-    toRadians (deg2gonValue false d m s : ℝ) = toRadians g := by
-  rw [deg2gonValue_pos, hg]; congr 1; ring
 
 /-! ### axes and angles -/
 
